@@ -11,6 +11,65 @@ def norm(t):
     return z3.simplify(t, som=True)
 
 
+def reduce_coeffs(t, q):
+    """canonical representative mod q of a sum-of-monomials polynomial: integer coefficients reduced into [0,q),
+    vanishing monomials dropped"""
+    t = z3.simplify(t, som=True)
+    terms = list(t.children()) if (z3.is_app(t) and t.decl().kind() == z3.Z3_OP_ADD) else [t]
+    out = []
+    const = 0
+    for m in terms:
+        if z3.is_int_value(m):
+            const += m.as_long()
+            continue
+        c, rest = 1, m
+        if z3.is_app(m) and m.decl().kind() == z3.Z3_OP_MUL and z3.is_int_value(m.arg(0)):
+            c = m.arg(0).as_long()
+            rs = m.children()[1:]
+            rest = rs[0] if len(rs) == 1 else z3.Product(rs)
+        elif z3.is_app(m) and m.decl().kind() == z3.Z3_OP_UMINUS:
+            c, rest = -1, m.arg(0)
+        c %= q
+        if c == 0:
+            continue
+        out.append(rest if c == 1 else z3.IntVal(c) * rest)
+    const %= q
+    if const or not out:
+        out.append(z3.IntVal(const))
+    return out[0] if len(out) == 1 else z3.Sum(out)
+
+
+def norm_mod(t, q):
+    """normal form of a discrete-log polynomial modulo q"""
+    return reduce_coeffs(strip_mod(t, q), q)
+
+
+def strip_mod(t, q):
+    """rewrite a discrete-log polynomial modulo q: (a mod q) is replaced by a wherever it occurs as a summand or
+    factor (sound: only congruence classes mod q of logs are ever observed)"""
+    if not z3.is_expr(t):
+        return t
+    k = t.decl().kind() if z3.is_app(t) else None
+    if k == z3.Z3_OP_MOD:
+        m = t.arg(1)
+        if z3.is_int_value(m) and m.as_long() == q:
+            return strip_mod(t.arg(0), q)
+        return t
+    if k in (z3.Z3_OP_ADD, z3.Z3_OP_MUL, z3.Z3_OP_SUB, z3.Z3_OP_UMINUS):
+        args = [strip_mod(a, q) for a in t.children()]
+        if k == z3.Z3_OP_ADD:
+            return z3.Sum(args) if len(args) > 1 else args[0]
+        if k == z3.Z3_OP_MUL:
+            return z3.Product(args) if len(args) > 1 else args[0]
+        if k == z3.Z3_OP_SUB:
+            r = args[0]
+            for a in args[1:]:
+                r = r - a
+            return r
+        return -args[0]
+    return t
+
+
 class AbsElem:
     def __init__(self, group, log):
         self.group = group
@@ -140,11 +199,16 @@ class AbsGroup:
         v = z3.simplify(b.value())
         tab = c.table(self.enc_key)
         found = None
-        for (lg, t) in list(tab):                      # which known element is it?
-            r = _mk_bool(t == v)
-            if r is True or (r is not False and bool(r)):
+        for (lg, t) in list(tab):                      # the very encoding some element produced: that element
+            if t.eq(v) or z3.simplify(t).eq(v):
                 found = lg
                 break
+        if found is None:
+            for (lg, t) in list(tab):                  # which known element is it?
+                r = _mk_bool(t == v)
+                if r is True or (r is not False and bool(r)):
+                    found = lg
+                    break
         if found is None:
             # some other byte string: decoding is a function of the bytes (VALID/DLOG are uninterpreted)
             if SymBool(self.VALID(v)):
